@@ -123,6 +123,14 @@ def ob_totp(chk, ir):
     verdict = 'holds'; total = 0; n = 0
     RL = ir.typeid(M + '.totpRateLimitInfo')
     H, secret = totpk.setup(ir, ndev=1); ex = H.ex
+    # which of the three neighbouring periods a value belongs to does not matter for the throttle claims: an evaluation is the first
+    # candidate tried for a device (its verdict symbolic), the two further candidates are taken not to match
+    def hotp_first(ex_, s_, a, ins):
+        if not totpk.hotp_is_first(s_, a[1]): return (z3.BoolVal(False), nilerr())      # counter - 1 / counter + 1
+        okb = a[0] == totpk.HOTP(a[2], lib.tobv(a[1]))
+        s_.ev('totp.validate', code=a[0], step=lib.tobv(a[1]), ok=okb)
+        return (okb, nilerr())
+    H.stub('github.com/pquerna/otp/hotp.ValidateCustom', hotp_first)
     st, state, w, r = H.mkstate()
     user = SV('alice'); t1 = z3.BitVec('t1', lib.TW); t2 = z3.BitVec('t2', lib.TW)
     st.pc += [t1 >= lib.T(1577836800 * SEC), t1 <= t2, t2 <= lib.T(3976214400 * SEC)]
@@ -132,7 +140,7 @@ def ob_totp(chk, ir):
     # arbitrary pre-state record for the user (instants not after t1; failCount arbitrary)
     fc0 = z3.BitVec('pre.failCount', 32); lc0 = z3.BitVec('pre.lastCheckTime', lib.TW); lo0 = z3.BitVec('pre.lockoutExpirationTime', lib.TW); lf0 = z3.BitVec('pre.lastFailTime', lib.TW)
     st.pc += [lc0 <= t1, lf0 <= t1, lo0 <= t1 + lib.T(10**6 * SEC), lc0 >= lib.T(lib.ZERO_NS), lf0 >= lib.T(lib.ZERO_NS), lo0 >= lib.T(lib.ZERO_NS), z3.ULE(fc0, 1000)]
-    rec = StructV({'lastCheckTime': TimeV(lc0), 'failCount': fc0, 'lockoutExpirationTime': TimeV(lo0), 'lastFailTime': TimeV(lf0)}[f['name']] for f in ir.fields(RL))
+    rec = StructV({'lastCheckTime': TimeV(lc0), 'failCount': fc0, 'lockoutExpirationTime': TimeV(lo0), 'lastFailTime': TimeV(lf0)}.get(f['name'], Lazy(f['type'], 'pre.' + f['name'])) for f in ir.fields(RL))      # further fields of the record: arbitrary
     mt = [f for f in ir.fields(H.RS) if f['name'] == 'totpLocalRateLimit'][0]; mu = ir.under(mt['type'])[1]
     mcell = {'base': None, 'elem': mu['elem'], 'key': mu['key'], 'writes': [['set', user, rec]], 'lazy': {}}
     H.add_hints(pin(r'^\*state\.totpLocalRateLimit$', MapV(st.alloc(mcell))))
